@@ -151,7 +151,26 @@ LifeOps == {<<Ld(1, 1)>> \o (IF rd THEN <<Dt(1)>> ELSE <<>>) \o (IF ck THEN <<Ck
             \o <<Ld(2, 2), Ld(3, 3)>> \o p \o Rep(Cl(2), c2) \o <<Cl(3)>>
             \o <<Ld(4, 1), Ld(5, 2), Dt(5), Dt(4), Ck(4), Cl(4), Cl(5)>> :
                rd \in BOOLEAN, ck \in BOOLEAN, c1 \in 0..2, c2 \in 1..2, p \in Perms4({Dt(2), Dt(3), Ck(2), Ck(3)})}
-Life == {[k |-> "deb_ops", pkgs |-> <<LifePkg(1), LifePkg(2), LifePkg(3)>>, ops |-> o] : o \in LifeOps}
+\* the xz dictionary limit is process-wide state (deb.SetXZMaxDict): an xz package (dictionary 256 KiB, `xz -0`) loads
+\* exactly when the limit in force is 0 (the default) or at least that; a gzip package always loads
+XzPkg == <<Bin(V20), Ctl("xz", <<Dir, CtlF("./control")>>, Fields(PkgName(1), FALSE)), Dat("xz", <<DataFile(1)>>), Sig("origin", "k1", <<1, 2, 3>>)>>
+Dc(n) == LOp("dict", 0, n, <<>>)
+DictLife == {[k |-> "deb_ops", pkgs |-> <<XzPkg, LifePkg(2)>>, ops |-> o] : o \in {
+                <<Ld(1, 1), Dt(1), Dc(65536), Ld(2, 1), Ld(3, 2), Dc(0), Ld(4, 1), Dt(4), Dt(3)>>,
+                <<Dc(65536), Dc(0), Ld(1, 1), Dt(1)>>,
+                <<Dc(1048576), Ld(1, 1), Dc(4096), Ld(2, 1), Dc(262144), Ld(3, 1), Dt(3), Dt(1), Dc(0), Ld(4, 1)>>,
+                <<Dc(4096), Ld(1, 2), Dt(1), Dc(0), Dc(0), Ld(2, 1), Ck(2)>> }}
+\* packages loaded from a PATH: the verdict of a handle is about what was loaded, whatever lies at the path later
+Unsigned(n) == <<Bin(V20), Ctl("gz", <<Dir, CtlF("./control")>>, Fields(PkgName(n), FALSE)), Dat("gz", <<DataFile(n)>>)>>
+WrongSig(n) == Unsigned(n) \o <<Sig("origin", "k1", <<1, 3, 2>>)>>
+Lf(h, p) == LOp("loadfile", h, p, <<>>)  Cc(h) == LOp("closer", h, 0, <<>>)  Rp(p) == LOp("replace", 0, p, <<>>)
+PathLife == {[k |-> "deb_ops", pkgs |-> <<ev, LifePkg(2)>>, ops |-> o] : ev \in {Unsigned(1), WrongSig(1)}, o \in {
+                <<Lf(1, 1), Ck(1), Cc(1), Rp(2), Ck(1)>>,
+                <<Lf(1, 1), Cl(1), Rp(2), Ck(1), Cc(1)>>,
+                <<Lf(1, 1), Rp(2), Ck(1), Dt(1), Cc(1)>>,
+                <<Lf(1, 2), Ck(1), Cc(1), Rp(1), Lf(2, 1), Ck(2), Cc(2)>>,
+                <<Lf(1, 2), Rp(1), Ck(1), Dt(1), Cc(1), Cc(1)>> }}
+Life == {[k |-> "deb_ops", pkgs |-> <<LifePkg(1), LifePkg(2), LifePkg(3)>>, ops |-> o] : o \in LifeOps} \cup DictLife \cup PathLife
 ASSUME Emit(CASE Mode = "c14" -> SetToSeq(C14Vecs) \o SetToSeq(Life)
               [] Mode = "c16" -> SetToSeq(C16Vecs) \o SetToSeq(Life))
 =============================================================================
